@@ -1,0 +1,46 @@
+//go:build verif
+
+package urlutil
+
+// Contracts for the deductive verifier in /verif (govc); comments only.
+
+/*@
+// sameButUser(a, b): every component of the two URL values other than the
+// userinfo is equal.
+spec fn sameButUser(a url.URL, b url.URL) bool =
+  a.Scheme == b.Scheme && a.Opaque == b.Opaque && a.Host == b.Host && a.Path == b.Path &&
+  a.RawPath == b.RawPath && a.OmitHost == b.OmitHost && a.ForceQuery == b.ForceQuery &&
+  a.RawQuery == b.RawQuery && a.Fragment == b.Fragment && a.RawFragment == b.RawFragment
+
+func RedactUserinfo
+  requires u != nil
+  modifies nothing
+  ensures no_userinfo_as_is: old(u.User) == nil ==> redacted == u
+  ensures fresh_copy: old(u.User) != nil ==> fresh(redacted) && redacted != u
+  ensures masked: old(u.User) != nil ==> redacted.User == redactedUserinfo
+  ensures rest_equal: sameButUser(deref(redacted), old(deref(u)))
+  ensures exact_copy: old(u.User) != nil ==> deref(redacted) == with(old(deref(u)), "User", redactedUserinfo)
+  ensures input_unchanged: deref(u) == old(deref(u))
+
+func RedactUserinfoInURLError
+  requires u != nil
+  requires typeis(err, "*url.Error") ==> as(err, "*url.Error") != nil
+  modifies as(err, "*url.Error").URL
+  ensures input_unchanged: deref(u) == old(deref(u))
+  ensures redacted_text: typeis(err, "*url.Error") && old(u.User) != nil ==>
+    as(err, "*url.Error").URL == urlText(with(old(deref(u)), "User", redactedUserinfo))
+  ensures untouched_without_userinfo: typeis(err, "*url.Error") && old(u.User) == nil ==>
+    as(err, "*url.Error").URL == old(as(err, "*url.Error").URL)
+
+// Non-interference, as self-composition over the contract of RedactUserinfo:
+// two URLs that agree on everything but their (non-nil) userinfo give
+// results that agree on every component, including the userinfo.
+lemma redactNonInterference(u1 *url.URL, u2 *url.URL)
+  requires u1 != nil && u2 != nil && u1.User != nil && u2.User != nil
+  requires sameButUser(deref(u1), deref(u2))
+  call r1 = RedactUserinfo(u1)
+  call r2 = RedactUserinfo(u2)
+  ensures components_equal: sameButUser(post(r1, deref(r1)), post(r2, deref(r2)))
+  ensures userinfo_equal: post(r1, r1.User) == post(r2, r2.User)
+  ensures userinfo_is_mask: post(r1, r1.User) == redactedUserinfo
+@*/
